@@ -347,7 +347,7 @@ def oracle_c08(tier, seed):
                                  "what": f"grain-bookkeeping: {name}: group {sp.grain_group} count {dict(sp.element_count)} charge {sp.charge} is_atom {sp.is_atom}",
                                  "signature": f"C08:{cname}:grain-bookkeeping"})
         # names with a foreign character must be rejected
-        for bad in ["H2Q", "C?O", "xH2", "H2O!", "C.O"] + (["Mg", "oH2", "pH3+", "HgO", "H2M", "CXO"] if (elements is not None and not pseudo) else []):
+        for bad in ["H2Q", "C?O", "xH2", "H2O!", "C.O", "H 2", "H2 O", "C1_2", "C+2H", "H2\tO", "C 12", "O_2"] + (["Mg", "oH2", "pH3+", "HgO", "H2M", "CXO"] if (elements is not None and not pseudo) else []):
             cases += 1
             try:
                 Species(bad, **kw)
